@@ -14,6 +14,8 @@ import (
 	"io"
 	"math/big"
 	"os"
+	"regexp"
+	"strings"
 	"sort"
 	"time"
 
@@ -93,6 +95,7 @@ type cwWorld struct {
 	spentInPool map[string]bool           // outpoints the generator already used in a submitted Qi transaction
 	plan        *cwPlan                   // a contract deployment onto an address that was funded beforehand
 	hunt        bool                      // time spends of small unlocked outputs to the block that trims them
+	qiBoost     int                       // extra Qi spends per round
 	born        map[types.OutPoint]uint64 // creation height of outputs made on this chain
 }
 
@@ -435,7 +438,7 @@ func (w *cwWorld) userActivity() {
 			to := w.randQuaiAddr()
 			txs.add(w.signQuai(a, &to, big.NewInt(int64(1+rc.Intn(1e9))), nil, 21000))
 			w.count("tx:transfer")
-		case k < 5 && w.owner == nil:
+		case (k < 5 || headNum < 8) && w.owner == nil:
 			code, addr := grindCreate(a.addr, a.nonce, initCodeFor(lkOwnerCode(vm.LockupContractAddresses[[2]byte{0, 0}])), w.node.loc)
 			txs.add(w.signQuai(a, nil, big.NewInt(0), code, 3000000, types.AccessTuple{Address: addr}))
 			w.owner = &addr
@@ -469,7 +472,7 @@ func (w *cwWorld) userActivity() {
 		}
 	}
 	// Qi side: spend unlocked outputs of the generator's keys
-	for i, n := 0, rc.Intn(3); i < n; i++ {
+	for i, n := 0, rc.Intn(3)+w.qiBoost; i < n; i++ {
 		if tx := w.qiSpend(headNum); tx != nil {
 			txs.add(tx)
 		}
@@ -609,6 +612,19 @@ func (w *cwWorld) qiSpend(height uint64) *types.Transaction {
 		picked = append(picked, forced[0])
 		w.count("tx:qi-spend-at-trim-height")
 		nin = len(picked)
+	} else if rc.Chance(60) {
+		// chain: spend an output the head block itself created (after a reorg both transactions sit in the pool again
+		// and can end up in one block)
+		for _, c := range cands[1:] {
+			if w.born[c.op] == height {
+				picked = append(picked, c)
+				w.count("tx:qi-spend-of-head-output")
+				if nin < 2 {
+					nin = 2
+				}
+				break
+			}
+		}
 	}
 	for len(picked) < nin {
 		c := cands[1+rc.Intn(len(cands)-1)]
@@ -719,10 +735,16 @@ func (w *cwWorld) build() (*cwStep, error) {
 
 // commit appends a built block (or an equally valid variant of it) to the node and updates the generator's view
 func (w *cwWorld) commit(st *cwStep) error {
-	n, blk := w.node, st.blk
-	if err := n.appendBlock(blk, st.inbound); err != nil {
+	if err := w.node.appendBlock(st.blk, st.inbound); err != nil {
 		return err
 	}
+	w.noteAppended(st)
+	return nil
+}
+
+// noteAppended updates the generator's view after st.blk became the node's head
+func (w *cwWorld) noteAppended(st *cwStep) {
+	n, blk := w.node, st.blk
 	// with a single zone every outbound ETX (coinbase, conversion, lockup redemption, unwrap) is addressed to this
 	// zone again and returns through the dominant chains
 	for _, e := range blk.OutboundEtxs() {
@@ -739,7 +761,128 @@ func (w *cwWorld) commit(st *cwStep) error {
 	}
 	w.steps = append(w.steps, *st)
 	w.waitPool()
-	return nil
+}
+
+var (
+	reRemoteLocalDec = regexp.MustCompile(`\(remote: (\d+) local: (\d+)\)`)
+	reRemoteLocalHex = regexp.MustCompile(`\(remote: ([0-9a-f]+) local: ([0-9a-f]+)\)`)
+)
+
+// foreignStep plays a miner that does not use this node's worker: it takes the worker's template, keeps the
+// mandatory inbound ETXs, replaces the pool's transactions by a chain of two Qi transactions of which the second
+// spends an output of the first (go-quai's own worker never builds that, its validator accepts it), and derives
+// the header's declared results the only way an outsider can: from the validator's verdicts.  Returns nil when the
+// ledger offers no suitable output.
+func (w *cwWorld) foreignStep() (*cwStep, error) {
+	st, err := w.build()
+	if err != nil {
+		return nil, err
+	}
+	headNum := w.head().NumberU64(common.ZONE_CTX)
+	if w.rg.preTx || headNum < params.TimeToStartTx+2 {
+		return st, w.commit(st)
+	}
+	tx1, tx2 := w.qiChain(headNum)
+	if tx1 == nil {
+		return st, w.commit(st)
+	}
+	m := types.CopyWorkObject(st.blk)
+	var txs types.Transactions
+	for _, tx := range m.Transactions() {
+		if tx.Type() == types.ExternalTxType {
+			txs = append(txs, tx)
+		}
+	}
+	txs = append(txs, tx1, tx2)
+	m.Body().SetTransactions(txs)
+	m.Header().SetTxHash(txRoot(txs))
+	for try := 0; try < 16; try++ {
+		if w.node.reseal(m, st.order, 0) == nil {
+			return nil, fmt.Errorf("foreign block: no seal found")
+		}
+		err := w.node.appendBlock(m, st.inbound)
+		if err == nil {
+			st.blk = m
+			w.noteAppended(st)
+			w.count("foreign-block-with-chained-qi-spend")
+			return st, nil
+		}
+		msg := err.Error()
+		dec := reRemoteLocalDec.FindStringSubmatch(msg)
+		hx := reRemoteLocalHex.FindStringSubmatch(msg)
+		big10 := func() *big.Int { v, _ := new(big.Int).SetString(dec[2], 10); return v }
+		hash16 := func() common.Hash { return common.HexToHash(hx[2]) }
+		switch {
+		case strings.Contains(msg, "invalid gas used") && dec != nil:
+			m.Header().SetGasUsed(big10().Uint64())
+		case strings.Contains(msg, "invalid state used") && dec != nil:
+			m.Header().SetStateUsed(big10().Uint64())
+		case strings.Contains(msg, "avgTxFees") && dec != nil:
+			m.Header().SetAvgTxFees(big10())
+		case strings.Contains(msg, "totalFees") && dec != nil:
+			m.Header().SetTotalFees(big10())
+		case strings.Contains(msg, "invalid receipt root") && hx != nil:
+			m.Header().SetReceiptHash(hash16())
+		case strings.Contains(msg, "invalid merkle root") && hx != nil:
+			m.Header().SetEVMRoot(hash16())
+		case strings.Contains(msg, "invalid utxo root") && hx != nil:
+			m.Header().SetUTXORoot(hash16())
+		case strings.Contains(msg, "invalid etx root") && hx != nil:
+			m.Header().SetEtxSetRoot(hash16())
+		case strings.Contains(msg, "invalid quai trie size") && hx != nil:
+			v, _ := new(big.Int).SetString(hx[2], 16)
+			m.Header().SetQuaiStateSize(v)
+		default:
+			// the chain of Qi transactions itself was not acceptable (fee floor, ordering): fall back to the template
+			w.count("foreign-block-abandoned")
+			if os.Getenv("QVH_DEBUG") != "" {
+				fmt.Fprintln(os.Stderr, "foreign block abandoned:", msg)
+			}
+			return st, w.commit(st)
+		}
+	}
+	return st, w.commit(st)
+}
+
+// qiChain: tx1 spends the largest spendable output into one output of the next lower denomination, tx2 spends that
+// output again one denomination lower (so tx2's fee and fee rate are below tx1's, as block order demands)
+func (w *cwWorld) qiChain(height uint64) (*types.Transaction, *types.Transaction) {
+	var best *types.OutPoint
+	var bestDen uint8
+	bestKey := -1
+	it := w.node.db.NewIterator(rawdb.UtxoPrefix, nil)
+	for it.Next() {
+		k := it.Key()
+		if len(k) != rawdb.UtxoKeyLength {
+			continue
+		}
+		p := new(types.ProtoTxOut)
+		u := new(types.UtxoEntry)
+		if proto.Unmarshal(it.Value(), p) != nil || u.ProtoDecode(p) != nil || (u.Lock != nil && u.Lock.Uint64() > height) {
+			continue
+		}
+		txh, idx, err := rawdb.ReverseUtxoKey(k)
+		if err != nil || w.spentInPool[fmt.Sprintf("%x:%d", txh, idx)] {
+			continue
+		}
+		for ki, key := range w.qi {
+			if bytes.Equal(key.addr.Bytes(), u.Address) && (best == nil || u.Denomination > bestDen) {
+				best, bestDen, bestKey = &types.OutPoint{TxHash: txh, Index: idx}, u.Denomination, ki
+			}
+		}
+	}
+	it.Release()
+	if best == nil || bestDen < 4 {
+		return nil, nil
+	}
+	k1, k2 := (bestKey+1)%len(w.qi), (bestKey+2)%len(w.qi)
+	chain := w.node.sl.Config().ChainID
+	tx1 := utSign(&types.QiTx{ChainID: chain, TxIn: types.TxIns{{PreviousOutPoint: *best, PubKey: w.qi[bestKey].pub}},
+		TxOut: types.TxOuts{*types.NewTxOut(bestDen-1, w.qi[k1].addr.Bytes(), big.NewInt(0))}}, []*btcec.PrivateKey{w.qi[bestKey].priv})
+	tx2 := utSign(&types.QiTx{ChainID: chain, TxIn: types.TxIns{{PreviousOutPoint: types.OutPoint{TxHash: tx1.Hash(), Index: 0}, PubKey: w.qi[k1].pub}},
+		TxOut: types.TxOuts{*types.NewTxOut(bestDen-2, w.qi[k2].addr.Bytes(), big.NewInt(0))}}, []*btcec.PrivateKey{w.qi[k1].priv})
+	w.spentInPool[fmt.Sprintf("%x:%d", best.TxHash, best.Index)] = true
+	return tx1, tx2
 }
 
 // waitPool lets the pool's asynchronous head reset finish (it is driven by the chain head feed)
